@@ -6,12 +6,124 @@ from typing import Dict, List, Optional, Set, Tuple
 
 from ..cfg import CFG, Node
 from ..core import AnalysisError, Cls, Fn, Repo, call_name, calls_in, const_value, dotted, get_kw, last_attr, short, walk_no_nested
-from ..pat import has
+from ..pat import _tree_of, has
 from ..report import Check
 from ..terms import Atom, Poly, TermBuilder, expand_phi, mentions, single_atom, walk_atoms
 
 DM = "agilerl.networks.distributions"
 AM = "agilerl.networks.actors"
+
+
+# ------------------------------------------------------------------------------------------------ one verdict for both spellings of a choice
+# `x = a if c else b` and `if c: x = a` / `else: x = b` are the same program.  The rules below never look at "the" definition of a local or at a conditional
+# expression as such: they look at the alternatives of a value (one per reaching definition and per arm of a conditional expression), at the guards of an
+# expression (the enclosing `if` tests plus the tests of the conditional expressions it is an arm of) and, where a pattern contains a conditional expression,
+# at both spellings of the code.
+def _arms(v: Optional[ast.AST]) -> List[Optional[ast.AST]]:
+    """The alternatives of a value: the arms of a conditional expression (nested ones flattened), the value itself otherwise."""
+    if isinstance(v, ast.IfExp):
+        return _arms(v.body) + _arms(v.orelse)
+    return [v]
+
+
+def _alt_values(cfg: CFG, at: Optional[Node], name: str) -> List[Optional[ast.AST]]:
+    """Every value `name` may hold at `at`: one per reaching definition and per arm of a conditional expression (None for an opaque definition)."""
+    out: List[Optional[ast.AST]] = []
+    for d in (cfg.defs_reaching(at, name) if at is not None else []):
+        out += _arms(cfg.value_of_def(d, name))
+    return out
+
+
+def _arm_tests(root: ast.AST, x: ast.AST) -> List[Tuple[ast.AST, bool]]:
+    """(test, polarity) of the conditional expressions inside `root` that decide whether the sub-expression `x` is evaluated."""
+    def go(n: ast.AST, acc: List[Tuple[ast.AST, bool]]) -> Optional[List[Tuple[ast.AST, bool]]]:
+        if n is x:
+            return acc
+        if isinstance(n, ast.IfExp):
+            for ch, extra in ((n.test, []), (n.body, [(n.test, True)]), (n.orelse, [(n.test, False)])):
+                r = go(ch, acc + extra)
+                if r is not None:
+                    return r
+            return None
+        for ch in ast.iter_child_nodes(n):
+            r = go(ch, acc)
+            if r is not None:
+                return r
+        return None
+    return go(root, []) or []
+
+
+def _expr_guards(cfg: CFG, x: ast.AST) -> List[Tuple[ast.AST, bool]]:
+    """(test, polarity) of everything known where the expression `x` is evaluated: the `if` tests around its statement and the tests of the conditional
+    expressions it is an arm of (leading negations folded into the polarity)."""
+    n = cfg.node_of(x)
+    if n is None:
+        return []
+    out = [(g, pol) for g, pol, _ in cfg.guards_at(n)]
+    for root in n.exprs():
+        for t, pol in _arm_tests(root, x):
+            while isinstance(t, ast.UnaryOp) and isinstance(t.op, ast.Not):
+                t, pol = t.operand, not pol
+            out.append((t, pol))
+    return out
+
+
+def _folded(stmts: List[ast.stmt]) -> Optional[ast.stmt]:
+    """A branch that is one plain binding / return, or a two-way `if` over such branches for the same target, written as ONE statement with a conditional
+    expression: `if c: T = a` / `else: T = b` -> `T = a if c else b` (also `return`, augmented assignments; nested choices fold into nested expressions)."""
+    if len(stmts) != 1:
+        return None
+    s = stmts[0]
+    if isinstance(s, (ast.Return, ast.AugAssign)) or (isinstance(s, ast.Assign) and len(s.targets) == 1):
+        return s if getattr(s, "value", None) is not None else None
+    if isinstance(s, ast.If) and s.orelse:
+        a, b = _folded(s.body), _folded(s.orelse)
+        if a is None or b is None or type(a) is not type(b):
+            return None
+        val = ast.IfExp(test=s.test, body=a.value, orelse=b.value)
+        if isinstance(a, ast.Return):
+            new: ast.stmt = ast.Return(value=val)
+        elif isinstance(a, ast.Assign):
+            if ast.dump(a.targets[0]) != ast.dump(b.targets[0]):
+                return None
+            new = ast.Assign(targets=a.targets, value=val)
+        else:
+            if ast.dump(a.target) != ast.dump(b.target) or type(a.op) is not type(b.op):
+                return None
+            new = ast.AugAssign(target=a.target, op=a.op, value=val)
+        return ast.fix_missing_locations(ast.copy_location(new, s))
+    return None
+
+
+def _choice_view(root: ast.AST) -> ast.Module:
+    """Every two-way choice of `root` that is spelled as a statement, re-spelled with a conditional expression (outermost choices only: nested ones are
+    part of the folded expression)."""
+    out: List[ast.stmt] = []
+
+    def walk(n: ast.AST) -> None:
+        if isinstance(n, ast.If):
+            f = _folded([n])
+            if f is not None:
+                out.append(f)
+                return
+        for ch in ast.iter_child_nodes(n):
+            walk(ch)
+    walk(root)
+    return ast.Module(body=out, type_ignores=[])
+
+
+def _has_choice(target, pattern: str) -> bool:
+    """`has` for a pattern that contains a conditional expression; the code may spell the choice as an expression or as an if / else statement
+    (metavariables are shared with the other patterns matched on `target`)."""
+    tree = _tree_of(target)
+    return has(tree, pattern, env_key=tree) or has(_choice_view(tree), pattern, env_key=tree)
+
+
+
+def _alt_defs(cfg: CFG, n: Node) -> List[Tuple[ast.AST, List[Tuple[ast.AST, bool]]]]:
+    """(value, guards) for every alternative the assignment / return at node n can bind or hand back: one per arm of a conditional expression."""
+    v = getattr(n.ast, "value", None)
+    return [(a, _expr_guards(cfg, a)) for a in _arms(v) if a is not None]
 
 
 def run(ck: Check, repo: Repo) -> None:
@@ -76,8 +188,7 @@ def _handlers(ck: Check, repo: Repo) -> None:
     dist_var = wrapped_arg.id if isinstance(wrapped_arg, ast.Name) else None
     built: Dict[str, ast.AST] = {}
     for n in walk_no_nested(gd.node):
-        if dist_var is not None and isinstance(n, ast.Assign) and dotted(n.targets[0]) == dist_var:
-            v = n.value
+        for v in (_arms(n.value) if dist_var is not None and isinstance(n, ast.Assign) and dotted(n.targets[0]) == dist_var else []):
             if isinstance(v, ast.Call):
                 built[call_name(v)] = v
             elif isinstance(v, ast.ListComp) and isinstance(v.elt, ast.Call):
@@ -96,11 +207,11 @@ def _handlers(ck: Check, repo: Repo) -> None:
     gcfg = CFG(gd.node)
     pairs = {}
     for n in gcfg.live_nodes():
-        if dist_var is not None and n.kind == "stmt" and isinstance(n.ast, ast.Assign) and dotted(n.ast.targets[0]) == dist_var:
-            g = [ast.unparse(gg) for gg, pol, _ in gcfg.guards_at(n) if pol and "isinstance" in ast.unparse(gg)]
+        for v, gs in (_alt_defs(gcfg, n) if dist_var is not None and n.kind == "stmt" and isinstance(n.ast, ast.Assign) and dotted(n.ast.targets[0]) == dist_var else []):
+            g = [ast.unparse(gg) for gg, pol in gs if pol and "isinstance" in ast.unparse(gg)]
             kind = g[-1].split("spaces.")[-1].rstrip(")") if g else "?"
-            v = n.ast.value
-            pairs[kind] = call_name(v) if isinstance(v, ast.Call) else "list"
+            built_kind = call_name(v) if isinstance(v, ast.Call) else "list"
+            pairs[kind] = built_kind if pairs.get(kind) in (None, built_kind) else f"{pairs[kind]} | {built_kind}"  # two kinds of distribution for one kind of space agree with nothing
     ck.ob("C16.1", gd, gd.node, pairs == {"Box": "Normal", "Discrete": "Categorical", "MultiDiscrete": "list", "MultiBinary": "Bernoulli"},
           "Box -> Normal, Discrete -> Categorical, MultiDiscrete -> list of Categorical, MultiBinary -> Bernoulli", detail=str(pairs), construct="space kind -> distribution kind")
     src = ast.unparse(gd.node)
@@ -124,15 +235,19 @@ def _handlers(ck: Check, repo: Repo) -> None:
                 ck.ob("C16.2", gd, h.node, False, f"{hname}.{meth} exists")
                 continue
             rets = [n for n in walk_no_nested(f.node) if isinstance(n, ast.Return)]
-            s = ast.unparse(rets[0].value) if rets else ""
-            if kind == "independent":
-                ok = s.startswith("sum_independent_tensor(") and f"distribution.{meth}(" in s
-            elif kind == "sum1":
-                ok = s.endswith(".sum(dim=1)") and s.startswith(f"distribution.{meth}(")
-            elif kind == "none":
-                ok = s.startswith(f"distribution.{meth}(") and "sum" not in s
-            else:
-                ok = s.endswith(".sum(dim=1)") and "torch.stack(" in s and "dim=1" in s.split(".sum")[0]
+            # every value the handler can hand back (one per return statement and per arm of a conditional expression) has the reduction
+
+            def reduced(s: str) -> bool:
+                if kind == "independent":
+                    return s.startswith("sum_independent_tensor(") and f"distribution.{meth}(" in s
+                if kind == "sum1":
+                    return s.endswith(".sum(dim=1)") and s.startswith(f"distribution.{meth}(")
+                if kind == "none":
+                    return s.startswith(f"distribution.{meth}(") and "sum" not in s
+                return s.endswith(".sum(dim=1)") and "torch.stack(" in s and "dim=1" in s.split(".sum")[0]
+            alts = [ast.unparse(a) if a is not None else "" for r in rets for a in _arms(r.value)]
+            s = " | ".join(alts)
+            ok = bool(alts) and all(reduced(a) for a in alts)
             ck.ob("C16.2", f, rets[0] if rets else f.node, ok, f"{hname}.{meth}: " + {"independent": "summed over components (dim 1) when batched", "sum1": "summed over components (dim 1)",
                                                                                     "none": "not reduced (one value per sample)", "stack-sum1": "components stacked on dim 1 and summed over dim 1"}[kind],
                   detail=s[:120])
@@ -141,7 +256,7 @@ def _handlers(ck: Check, repo: Repo) -> None:
                 ck.ob("C16.3", f, rets[0] if rets else f.node, arg is not None and any(isinstance(x, ast.Name) and x.id == arg for x in ast.walk(f.node)),
                       f"{hname}.log_prob evaluates the density at the action it is given")
     si = repo.fn(DM, "sum_independent_tensor")
-    ck.ob("C16.2", si, si.node, has(si.node, '$tensor.sum(dim=1) if len($tensor.shape) > 1 else $tensor'), "sum_independent_tensor sums over dim 1 of batched values",
+    ck.ob("C16.2", si, si.node, _has_choice(si.node, '$tensor.sum(dim=1) if len($tensor.shape) > 1 else $tensor'), "sum_independent_tensor sums over dim 1 of batched values",
           construct="sum_independent_tensor")
     mc = repo.fn(DM, "MultiCategoricalHandler.log_prob")
     src = ast.unparse(mc.node)
@@ -184,12 +299,12 @@ def _log_prob(ck: Check, repo: Repo) -> None:
     ck.ob("C16.4", fn, fn.node, len(subs) == 1, "exactly one squash correction", construct="squash correction in log_prob")
     sm = repo.fn(DM, "TorchDistribution.sample")
     scfg = CFG(sm.node)
-    rets = [n for n in scfg.live_nodes() if n.kind == "stmt" and isinstance(n.ast, ast.Return)]
+    rets = [(v, gs) for n in scfg.live_nodes() if n.kind == "stmt" and isinstance(n.ast, ast.Return) for v, gs in _alt_defs(scfg, n)]
     okt = False
     okp = False
-    for r in rets:
-        g = [(ast.unparse(gg), pol) for gg, pol, _ in scfg.guards_at(r)]
-        s = ast.unparse(r.ast.value)
+    for v, gs in rets:
+        g = [(ast.unparse(gg), pol) for gg, pol in gs]
+        s = ast.unparse(v)
         if ("self.squash_output", True) in g:
             okt = s == "torch.tanh(self.sampled_action)"
         else:
@@ -197,8 +312,10 @@ def _log_prob(ck: Check, repo: Repo) -> None:
     ck.ob("C16.4", sm, sm.node, okt and okp, "sample() returns tanh(x) when squashing and x otherwise", construct="sample() return values")
     ck.ob("C16.4", sm, sm.node, has(sm.node, 'self.sampled_action = self._handler.sample(self.distribution)'), "x is drawn from the wrapped distribution", construct="sample source")
     en = repo.fn(DM, "TorchDistribution.entropy")
-    s = ast.unparse(en.node)
-    ck.ob("C16.4", en, en.node, "if self.squash_output:\n        return None" in s and "return self._handler.entropy(self.distribution)" in s,
+    ecfg = CFG(en.node)
+    erets = [(v, [(ast.unparse(gg), pol) for gg, pol in gs]) for n in ecfg.live_nodes() if n.kind == "stmt" and isinstance(n.ast, ast.Return) for v, gs in _alt_defs(ecfg, n)]
+    ck.ob("C16.4", en, en.node, any(isinstance(v, ast.Constant) and v.value is None and g and g[-1] == ("self.squash_output", True) for v, g in erets)
+          and any(ast.unparse(v) == "self._handler.entropy(self.distribution)" for v, g in erets),
           "entropy is None for squashed outputs and the distribution's entropy otherwise", construct="entropy()")
 
 
@@ -213,8 +330,7 @@ def _forward(ck: Check, repo: Repo) -> None:
         defs = cfg.defs_reaching(at, name)
         if not defs or depth > 6:
             return False
-        for d in defs:
-            x = cfg.value_of_def(d, name)
+        for d, x in [(d, x) for d in defs for x in _arms(cfg.value_of_def(d, name))]:
             chain.add(d.id)
             if isinstance(x, ast.Name):
                 good = from_net(x.id, d, depth + 1)
@@ -245,7 +361,7 @@ def _forward(ck: Check, repo: Repo) -> None:
     # logits masked before the distribution is built
     masks = [cfg.node_of(c) for c in calls_in(fn.node) if call_name(c) == "self.apply_mask"]
     ok = len(masks) == 1 and masks[0] is not None and dist_set and cfg.dominates(cfg.node_of(calls_in(fn.node)[0]), masks[0]) and is_logits and masks[0].id in chain
-    g = [(ast.unparse(gg), pol) for gg, pol, _ in cfg.guards_at(masks[0])] if masks and masks[0] else []
+    g = [(ast.unparse(gg), pol) for c in calls_in(fn.node) if call_name(c) == "self.apply_mask" for gg, pol in _expr_guards(cfg, c)] if masks and masks[0] else []
     ck.ob("C16.7", fn, masks[0].ast if masks and masks[0] else fn.node, ok and ("action_mask is not None", True) in g,
           "when a mask is given the masked logits (and nothing else) parameterise the distribution")
     # StochasticActor.forward: scaling only for squashed Box; log_prob passed through
@@ -412,7 +528,7 @@ def _mask(ck: Check, repo: Repo) -> None:
     src = ast.unparse(ap.node)
     ck.ob("C16.7", ap, ap.node, has(src, 'torch.as_tensor($mask, dtype=torch.bool, device=self.device).view($logits.shape)'), "the mask is converted to booleans with the logits' shape",
           construct="mask conversion")
-    ck.ob("C16.7", ap, ap.node, has(src, 'list(self.action_space.nvec) if isinstance(self.action_space, spaces.MultiDiscrete) else [self.action_space.n]'),
+    ck.ob("C16.7", ap, ap.node, _has_choice(src, 'list(self.action_space.nvec) if isinstance(self.action_space, spaces.MultiDiscrete) else [self.action_space.n]'),
           "multi-discrete masks are split by nvec, multi-binary by n", construct="mask split sizes")
     ck.ob("C16.7", ap, ap.node, has(src, 'torch.split($mask, $splits, dim=1)') and has(src, 'torch.split($logits, $splits, dim=1)') and has(src, 'zip($split_logits, $split_masks)')
           and has(src, 'torch.cat($masked_logits, dim=1)'), "each component's logits are masked with that component's mask and re-assembled in order", construct="mask per component")
@@ -455,4 +571,27 @@ VARIANTS = [
     ("scale-action-wrong", _AF, "0.5 * (action + 1.0) * (self.action_high - self.action_low)", "0.5 * (action + 1.0) * self.action_high", "fire", "C16.4"),
     # behaviour-preserving rename of a local (the rules must go by role, not by spelling)
     ("forward-logits-renamed-ok", _DF, "        logits = self.wrapped(latent)\n\n        if action_mask is not None:", "        net_out = self.wrapped(latent)\n        logits = net_out\n\n        if action_mask is not None:", "silent", None),
+    # one verdict for both spellings of a two-way choice (conditional expression <-> if / else statement)
+    ('sum-independent-choice-as-statement-ok', _DF, '    return tensor.sum(dim=1) if len(tensor.shape) > 1 else tensor\n',
+     '    if len(tensor.shape) > 1:\n        return tensor.sum(dim=1)\n    else:\n        return tensor\n', 'silent', None),
+    ('sum-independent-statement-sums-the-batch', _DF, '    return tensor.sum(dim=1) if len(tensor.shape) > 1 else tensor\n',
+     '    if len(tensor.shape) > 1:\n        return tensor.sum(dim=0)\n    else:\n        return tensor\n', 'fire', 'C16.2'),
+    ('mask-split-sizes-as-statement-ok', _DF, '            splits = (\n                list(self.action_space.nvec)\n                if isinstance(self.action_space, spaces.MultiDiscrete)\n                else [self.action_space.n]\n            )\n',
+     '            if isinstance(self.action_space, spaces.MultiDiscrete):\n                splits = list(self.action_space.nvec)\n            else:\n                splits = [self.action_space.n]\n', 'silent', None),
+    ('mask-split-sizes-statement-arms-swapped', _DF, '            splits = (\n                list(self.action_space.nvec)\n                if isinstance(self.action_space, spaces.MultiDiscrete)\n                else [self.action_space.n]\n            )\n',
+     '            if isinstance(self.action_space, spaces.MultiDiscrete):\n                splits = [self.action_space.n]\n            else:\n                splits = list(self.action_space.nvec)\n', 'fire', 'C16.7'),
+    ('sample-choice-as-expression-ok', _DF, '        if self.squash_output:\n            return torch.tanh(self.sampled_action)\n\n        return self.sampled_action\n',
+     '        return torch.tanh(self.sampled_action) if self.squash_output else self.sampled_action\n', 'silent', None),
+    ('sample-expression-arms-swapped', _DF, '        if self.squash_output:\n            return torch.tanh(self.sampled_action)\n\n        return self.sampled_action\n',
+     '        return self.sampled_action if self.squash_output else torch.tanh(self.sampled_action)\n', 'fire', 'C16.4'),
+    ('entropy-choice-as-expression-ok', _DF, '        if self.squash_output:\n            return None\n\n        return self._handler.entropy(self.distribution)\n',
+     '        return None if self.squash_output else self._handler.entropy(self.distribution)\n', 'silent', None),
+    ('entropy-expression-arms-swapped', _DF, '        if self.squash_output:\n            return None\n\n        return self._handler.entropy(self.distribution)\n',
+     '        return self._handler.entropy(self.distribution) if self.squash_output else None\n', 'fire', 'C16.4'),
+    ('forward-mask-choice-as-expression-ok', _DF, '            logits = self.apply_mask(logits, action_mask)\n\n        # Distribution from logits\n',
+     '        logits = self.apply_mask(logits, action_mask) if action_mask is not None else logits\n\n        # Distribution from logits\n', 'silent', None),
+    ('forward-mask-expression-on-the-wrong-arm', _DF, '            logits = self.apply_mask(logits, action_mask)\n\n        # Distribution from logits\n',
+     '        logits = logits if action_mask is not None else self.apply_mask(logits, action_mask)\n\n        # Distribution from logits\n', 'fire', 'C16.7'),
+    ('bernoulli-single-component-unsummed', _DF, '        return distribution.log_prob(action).sum(dim=1)\n\n    def entropy(self, distribution: Bernoulli)',
+     '        return distribution.log_prob(action).sum(dim=1) if action.shape[-1] > 1 else distribution.log_prob(action)\n\n    def entropy(self, distribution: Bernoulli)', 'fire', 'C16.2'),
 ]
